@@ -48,11 +48,16 @@ func c04StdBlob(code []byte) []byte {
 // c04CleanModuloGas: with ample gas the implementation reaches the reference's
 // exit, counter, registers and memory (gas itself not compared).
 func c04CleanModuloGas(prog *refpvm.Program, blob []byte, w *c01World) (clean bool, ip *Program, n int, why string) {
+	// the reference must finish (not run out of gas) within c04MaxSteps steps
+	pre := c01RunRef(prog, w, c04Ample, refpvm.Options{}, c04MaxSteps+1)
+	if !pre.done || pre.unpinned || pre.exit.Kind == refpvm.OOG || pre.m.Steps > c04MaxSteps {
+		return false, nil, 0, "long"
+	}
 	v := c01Judge(prog, blob, nil, w, c04Ample, false)
 	if v.capped {
 		return false, nil, 0, "long"
 	}
-	n = v.ref.m.Steps
+	n = int(c04Ample - v.ref.m.Gas) // gas units the reference consumes (steps + 10 per unknown host call)
 	if v.im.deblobPanic || !v.im.deblobOK {
 		return false, nil, n, "deblob"
 	}
@@ -152,7 +157,9 @@ func c04CheckProg(r *vlib.Run, blob []byte, w *c01World, std *c01World, note str
 	for g := 0; g <= n3+1; g++ {
 		gases = append(gases, uint64(g))
 	}
-	gases = append(gases, c04Huge...)
+	if clean3 { // the implementation is known to stop within n3 steps: huge limits are safe
+		gases = append(gases, c04Huge...)
+	}
 	pclass := "psim:" + why3
 	if clean3 {
 		pclass = fmt.Sprintf("psim:n=%d", min(n3, 4))
@@ -187,7 +194,7 @@ func c04CheckProg(r *vlib.Run, blob []byte, w *c01World, std *c01World, note str
 			continue
 		}
 		ref := c01RunRef(prog, std, g, refpvm.Options{}, c04MaxSteps+2)
-		if !ref.done {
+		if !ref.done || ref.unpinned {
 			continue
 		}
 		imOOG := false
